@@ -497,22 +497,35 @@ def case_seed(case):
         return res(viol=[('api:shape', str(e))], obs=('shape', n, label))
     warned = any(issubclass(w.category, Warning) for w in rec)
     what = f'PRBS({n}, {L}, seed={label}={seed})'
-    if cls == 'zero':
-        assert eff == 0
-        arr = ref_stream(n, t, 1, L)
-        if not (np.array_equal(bits, arr[n - 1:n - 1 + L]) and int(st) == window(arr, n, L)):
+    target = 1 if cls == 'zero' else eff
+    assert (eff == 0) == (cls == 'zero')
+    arr = ref_stream(n, t, target, L)
+
+    def matches(b, s_):
+        return np.array_equal(b, arr[n - 1:n - 1 + L]) and int(s_) == window(arr, n, L)
+
+    if not matches(bits, st):
+        # classify (nothing is dropped): if the call with the canonical representative itself is wrong, this is a stream
+        # defect (same keys as the other parts); if only the non-canonical seed misbehaves, it is the seed clause
+        canonical_ok = False
+        if seed != target:
+            try:
+                cb, cs = impl(n, L, target)
+                canonical_ok = matches(cb, cs)
+            except Shape:
+                canonical_ok = False
+        if not canonical_ok:
+            compare_call(viol, n, t, target, L, bits, st, arr, what)
+        elif cls == 'zero':
             viol.append(('seed:zero-class-not-replaced-by-1',
                          f'{what}: seed = 0 mod 2^{n} must behave as seed 1; got bits {bits[:n + 2].tolist()}.. state {int(st)}, '
                          f'seed 1 gives {arr[n - 1:2 * n + 1].tolist()}.. state {window(arr, n, L)}'))
-        if not warned:
-            viol.append(('seed:zero-class-no-warning', f'{what}: seed = 0 mod 2^{n} replaced without a warning'))
-    else:
-        assert eff != 0
-        arr = ref_stream(n, t, eff, L)
-        if not (np.array_equal(bits, arr[n - 1:n - 1 + L]) and int(st) == window(arr, n, L)):
+        else:
             viol.append(('seed:not-reduced-mod-2^n',
                          f'{what}: must behave as seed {eff} = seed mod 2^{n}; got bits {bits[:n + 2].tolist()}.. state {int(st)}, '
                          f'expected {arr[n - 1:2 * n + 1].tolist()}.. state {window(arr, n, L)}'))
+    if cls == 'zero' and not warned:
+        viol.append(('seed:zero-class-no-warning', f'{what}: seed = 0 mod 2^{n} replaced without a warning'))
     # return_seed=False: the same output alone
     from opticomlib.devices import PRBS
     with warnings.catch_warnings():
@@ -666,19 +679,8 @@ def run(ctx):
     lfsr = {'impl_fullcycle_orders': [], 'impl_segments': {}, 'model_walk': {}}
     impl_shifts_cycle = 0
 
-    # ---- validation and seed clauses (cheap, simplest first)
+    # ---- validation clauses
     ctx.pmap('validation', case_valid, validation_alphabet(), horizon=20)
-    seed_cases = [(n, REF_TAPS[n], cls, label, s) for n in ORDERS for (cls, label, s) in seed_alphabet(n)]
-    ctx.pmap('seeds', case_seed, seed_cases, horizon=20)
-
-    # ---- full cycle on the implementation
-    full_orders = [7, 9, 11, 15, 20] + ([] if quick else [23])
-    pay = ctx.pmap('fullcycle', case_full, [(n, REF_TAPS[n]) for n in full_orders], horizon=600, chunk=1, recheck=3)
-    for p in pay:
-        if p:
-            lfsr['impl_fullcycle_orders'].append(p)
-            impl_shifts_cycle += (1 << p['n']) - 1
-
     # ---- one-call transition relation
     all_bound = 15 if quick else 20            # every non-zero start state for n <= bound
     big_count = 64 if quick else 4096
@@ -705,6 +707,14 @@ def run(ctx):
             call_states += len(seeds)
     ctx.pmap('steps', case_steps, step_cases, horizon=300, recheck=4)
 
+    # ---- full cycle on the implementation
+    full_orders = [7, 9, 11, 15, 20] + ([] if quick else [23])
+    pay = ctx.pmap('fullcycle', case_full, [(n, REF_TAPS[n]) for n in full_orders], horizon=600, chunk=1, recheck=3)
+    for p in pay:
+        if p:
+            lfsr['impl_fullcycle_orders'].append(p)
+            impl_shifts_cycle += (1 << p['n']) - 1
+
     # ---- resumed-call histories
     hist_all = (7, 9) if quick else (7, 9, 11)
     hist_cases = []
@@ -717,6 +727,10 @@ def run(ctx):
             hist_cases += [(n, t, c, False) for c in chunks(state_set(n, t, 64 if quick else 256), 4)]
     ctx.extra['history_alphabet'] = {str(n): len(history_alphabet(n, n <= 9)) for n in ORDERS}
     ctx.pmap('histories', case_hist, hist_cases, horizon=300, recheck=2)
+
+    # ---- seed clause
+    seed_cases = [(n, REF_TAPS[n], cls, label, s) for n in ORDERS for (cls, label, s) in seed_alphabet(n)]
+    ctx.pmap('seeds', case_seed, seed_cases, horizon=20)
 
     # ---- orders 23 / 31 on segments from model checkpoints
     if quick:
